@@ -168,15 +168,19 @@ Definition time_from_unix_float (a : Z) : option Z :=
 Fixpoint repeat_bytes (s : list Z) (n : nat) : list Z :=
   match n with O => [] | S k => s ++ repeat_bytes s k end.
 
-(* strings.Repeat(s, int(n)) as called by  String * Int  (pinned: its panics escape) *)
-Definition str_repeat_gen (neg ovf : outcome (list Z)) (s : list Z) (n : Z) : outcome (list Z) :=
+(* strings.Repeat(s, int(n)); its two panics escape the pinned  String * Int  descriptors *)
+Definition go_repeat (s : list Z) (n : Z) : outcome (list Z) :=
   if n =? 0 then Ok []
   else if n =? 1 then Ok s
-  else if n <? 0 then neg
-  else if max_int64 <? Z.of_nat (length s) * n then ovf
-  else Ok (repeat_bytes s (Z.to_nat n)).
-Definition str_repeat_pinned := str_repeat_gen (Panic P_neg_repeat) (Panic P_repeat_overflow).
-Definition str_repeat := str_repeat_gen (Err E_neg_repeat) (Err E_repeat_overflow).
+  else if n <? 0 then Panic P_neg_repeat
+  else if max_int64 <? Z.of_nat (length s) * n then Panic P_repeat_overflow
+  else match s with [] => Ok [] | _ => Ok (repeat_bytes s (Z.to_nat n)) end.
+Definition str_repeat_pinned := go_repeat.
+(* after the fix, repeatString:  count < 0 -> error;  len(s) > 0 && count > MaxInt/len(s) -> error;  strings.Repeat *)
+Definition str_repeat (s : list Z) (n : Z) : outcome (list Z) :=
+  if n <? 0 then Err E_neg_repeat
+  else if (0 <? Z.of_nat (length s)) && (max_int64 / Z.of_nat (length s) <? n) then Err E_repeat_overflow
+  else go_repeat s n.
 
 (* ================= int(String): strconv.ParseInt(s, 10, 64) ================= *)
 Definition is_digit (c : Z) : bool := (48 <=? c) && (c <=? 57).
@@ -223,9 +227,8 @@ Fixpoint digits_value (acc : Z) (s : list Z) : Z :=
   match s with [] => acc | c :: rest => digits_value (acc * 10 + (c - 48)) rest end.
 Definition parse_decimal_int64 (s : list Z) : option Z :=
   let '(neg, body) := match s with
-                      | 43 :: r => (false, r)
-                      | 45 :: r => (true, r)
-                      | _ => (false, s)
+                      | c :: r => if c =? 43 then (false, r) else if c =? 45 then (true, r) else (false, s)
+                      | [] => (false, s)
                       end in
   match body with
   | [] => None
@@ -361,7 +364,7 @@ Definition spec_fn (f : fn) (args : list value) : mres :=
   | FMulStrInt, [VStr s; VInt n] | FMulIntStr, [VInt n; VStr s] =>
       if n <? 0 then MRes (Err E_neg_repeat)
       else if max_int64 <? Z.of_nat (length s) * n then MRes (Err E_repeat_overflow)
-      else mval (VStr (concat (repeat s (Z.to_nat n))))
+      else mval (VStr (match s with [] => [] | _ => concat (repeat s (Z.to_nat n)) end))
   | FTimeFromUnixInt, [VInt x] =>
       (* for every timestamp whose year-1 second count fits int64 the instant is x seconds after the epoch *)
       if in_int64b (x + unix_to_internal) then mval (VTime (x * e9) 0) else MUnspec
@@ -399,6 +402,9 @@ Definition res_matches (m : mres) (o : obs) : bool :=
   | MRes (Panic _), OPanic => true
   | _, _ => false
   end.
+
+Definition is_scalar (v : value) : bool :=
+  match v with VList _ | VStruct _ | VTuple _ => false | _ => true end.
 
 (* ================= COALESCE ================= *)
 (* an argument expression, reduced to what its evaluation yields *)
@@ -649,13 +655,15 @@ Fixpoint fits (fuel : nat) (t : lty) (v : value) {struct fuel} : bool :=
 (* ================= the differential cases ================= *)
 Inductive c13_case :=
 | CFn (f : fn) (args : list value) (o : obs)
-| CCoalesce (tgt : lty) (srcs : list lty) (args : list carg) (o : obs) (nevals : Z).
+| CCoalesce (tgt : lty) (srcs : list lty) (args : list carg) (o : obs) (nevals : Z)
+| CGoSide (id : Z).     (* a case decided by the engine's Go-side oracle only (log*, pow, float text): no model *)
 
 Definition c13_tie (c : c13_case) : bool :=
   match c with
   | CFn f args o => res_matches (apply_fn f args) o
   | CCoalesce tgt srcs args o n =>
       let '(r, k) := coalesce_typed tgt srcs args in res_matches (MRes r) o && (k =? n)
+  | CGoSide _ => true
   end.
 
 (* the property's oracle on the implementation's observation *)
@@ -686,4 +694,5 @@ Definition c13_spec (c : c13_case) : bool :=
            match o with OVal w => value_sim (reshape mapping_fuel tgt src v) w | _ => false end)
       | Some (AVal v, None) => true
       end end
+  | CGoSide _ => true
   end.
